@@ -201,11 +201,11 @@ COMPILE = [
           dict(rule="R5", re=r"for pos in break_pos\.iter\(\) (/\*@L\d@\*/)\{(/\*@LB\d@\*/)", expect=2, strict=True,
                to=r"let mut verif_k: usize = 0; while verif_k < break_pos.len() \1{ let pos = &break_pos[verif_k]; verif_k += 1; let ghost verif_pre = *self; \2", why="iteration over a slice -> index loop in the same order; ghost snapshot"),
           dict(rule="R9", re=r"self\.patch_jump\(\*pos\);", expect=2, strict=True, to="self.patch_jump(*pos); proof { lemma_jumps_kept(&verif_s0, &verif_pre, self, *pos as int, verif_p); }", why="proof hint: patching a break placeholder keeps the loop's own jumps"),
-          dict(rule="R9", re=r"self\.emit\(Opcode::Jump, &\[loop_begin\], stmt\.token\.line\);", expect=2, strict=True,
-               to="let ghost verif_sb = *self; proof { lemma_breaks_before(&verif_sb); } self.emit(Opcode::Jump, &[loop_begin], stmt.token.line); let ghost verif_p: int = -1; proof { lemma_loop_tail(&verif_s0, &verif_sb, self, loop_begin); }",
+          dict(rule="R9g", re=r"(?m)^(\s*)self\.emit\(Opcode::Jump, &\[(?!loop_label)([\w.]+)\], stmt\.token\.line\);",
+               to=r"\1let ghost verif_sb = *self; proof { lemma_breaks_before(&verif_sb); } self.emit(Opcode::Jump, &[\2], stmt.token.line); let ghost verif_p: int = -1; proof { lemma_loop_tail(&verif_s0, &verif_sb, self, \2); }",
                why="ghost snapshot and proof hint: the loop-back jump"),
-          dict(rule="R9", re=r"self\.patch_jump\(condition_pos\);", expect=1, strict=True,
-               to="let ghost verif_s5 = *self; self.patch_jump(condition_pos); let ghost verif_p: int = condition_pos as int; proof { lemma_while_jumps(&verif_s0, &verif_s5, self, verif_p); }",
+          dict(rule="R9g", re=r"(?m)^(\s*)self\.patch_jump\((?!\*pos)(\w+)\);",
+               to=r"\1let ghost verif_s5 = *self; self.patch_jump(\2); let ghost verif_p: int = \2 as int; proof { lemma_while_jumps(&verif_s0, &verif_s5, self, verif_p); }",
                why="ghost snapshot and proof hint: the exit jump of while"),
           dict(rule="R5m", expect=1, strict=True,
                re=r"let loop_stack = &mut self\.scopes\[self\.scope_index\]\.loop_stack;\s*for loop_label in loop_stack\.iter_mut\(\)\.rev\(\) (/\*@L2@\*/)\{(/\*@LB2@\*/)\s*if let Some\(loop_label_name\) = &loop_label\.label \{\s*if loop_label_name == &label\.literal \{\s*loop_label\.break_positions\.push\(pos\);\s*return Ok\(\(\)\);\s*\}\s*\}\s*(/\*@LE2@\*/)\}(/\*@LA2@\*/)",
@@ -238,10 +238,11 @@ COMPILE = [
       epilogue="assume(emitted_by(expr, seg(self, code(old(self)).len() as int, code(self).len() as int)));",
       loops={0: dict(invariant=["gen(old(self), self)"], body_prologue=BCAST), 1: dict(invariant=["gen(old(self), self)"], body_prologue=BCAST), 2: dict(invariant=["gen(old(self), self)"], body_prologue=BCAST)}),
     m("compile_if_expression", ret="r", requires=PRE, ensures=GEN + ["r is Ok ==> if_shape(old(self), final(self), *expr.condition)"], prologue=BCAST, attrs=NODEC + ["#[verifier::rlimit(400)]"], props=["C06", "C01", "C08"],
-      rewrites=[dict(rule="R9", re=r"(self\.compile_expression\(\*expr\.condition\)\?;)", to=r"\1 let ghost verif_s1 = *self;", expect=1, strict=True, why="ghost snapshot"),
-                dict(rule="R9", re=r"(let jump_pos = self\.emit\(Opcode::Jump, [^;]*;)", to=r"\1 let ghost verif_sq = *self;", expect=1, strict=True, why="ghost snapshot"),
-                dict(rule="R9", re=r"(self\.patch_jump\(jump_if_false_pos\);)", to=r"\1 let ghost verif_s7 = *self;", expect=1, strict=True, why="ghost snapshot"),
-                dict(rule="R9", re=r"(self\.patch_jump\(jump_pos\);)", to=r"let ghost verif_s8 = *self; \1 proof { lemma_if_shape(old(self), &verif_s1, &verif_sq, &verif_s7, &verif_s8, self, *expr.condition); }", expect=1, strict=True, why="proof hint: the shape of if")]),
+      rewrites=[dict(rule="R9g", re=r"(self\.compile_expression\([^;]*\)\?;)", nth=0, to=r"\1 let ghost verif_s1 = *self;", why="ghost snapshot after the condition is compiled"),
+                dict(rule="R9g", re=r"(let jump_pos = self\.emit\([^;]*;)", to=r"\1 let ghost verif_sq = *self;", why="ghost snapshot after the jump over the else part is emitted"),
+                dict(rule="R9g", re=r"(self\.patch_jump\(\w+\);)", nth=0, to=r"\1 let ghost verif_s7 = *self;", why="ghost snapshot after the first patch"),
+                dict(rule="R9g", re=r"(self\.patch_jump\(\w+\);)", nth=-1, to=r"let ghost verif_s8 = *self; \1", why="ghost snapshot before the last patch"),
+                dict(rule="R9g", re=r"\n(\s*)Ok\(\(\)\)(\s*\}\s*)$", to=r"\n\1proof { lemma_if_shape(old(self), &verif_s1, &verif_sq, &verif_s7, &verif_s8, self, *expr.condition); }\n\1Ok(())\2", why="proof hint at the accepting exit: the shape of if")]),
     m("compile_identifier", ret="r", requires=PRE, ensures=GEN, prologue=BCAST),
     m("compile_index_expression", ret="r", requires=PRE, ensures=GEN + ["r is Ok ==> last_line_is(old(self), final(self), expr.token.line)",
                                                                        "r is Ok ==> sc(final(self)).last_ins.opcode == (if expr.context.access is Get { Opcode::GetIndex } else { Opcode::SetIndex })"], prologue=BCAST, attrs=NODEC, props=["C13", "C01", "C08"]),
@@ -254,16 +255,16 @@ COMPILE = [
       loops={0: dict(invariant=["entered(old(self), self)", "self.scopes == verif_e.scopes", "self.scope_index == verif_e.scope_index", "st_depth(&self.symtab) == st_depth(&verif_e.symtab)", "verif_e.encoding_error is Some ==> self.encoding_error is Some", "entered(old(self), &verif_e)"], after=" proof { lemma_gen_refl(&verif_e, self); } ", body_prologue=BCAST),
              1: dict(invariant=["verif_k <= free_symbols@.len()", "gen(old(self), self)"], decreases="free_symbols@.len() - verif_k", body_prologue=BCAST)}),
     m("compile_logical_and", ret="r", requires=PRE, ensures=GEN + ["r is Ok ==> and_shape(old(self), final(self), left, right, line)"], prologue=BCAST, attrs=NODEC, props=["C06", "C01", "C08"],
-      rewrites=[dict(rule="R9", re=r"(self\.compile_expression\(left\)\?;)", to=r"\1 let ghost verif_s1 = *self;", expect=1, strict=True, why="ghost snapshot"),
-                dict(rule="R9", re=r"(self\.compile_expression\(right\)\?;)", to=r"\1 let ghost verif_s4 = *self;", expect=1, strict=True, why="ghost snapshot"),
-                dict(rule="R9", re=r"(let jump_if_false_pos = self\.emit\(Opcode::JumpIfFalseNoPop, [^;]*;)", to=r"\1 let ghost verif_s2 = *self;", expect=1, strict=True, why="ghost snapshot"),
-                dict(rule="R9", re=r"(self\.patch_jump\(jump_if_false_pos\);)", to=r"\1 proof { lemma_and_shape(old(self), &verif_s1, &verif_s2, &verif_s4, self, left, right, line); }", expect=1, strict=True, why="proof hint: the shape of a && b")]),
+      rewrites=[dict(rule="R9g", re=r"(self\.compile_expression\(\w+\)\?;)", nth=0, to=r"\1 let ghost verif_s1 = *self;", why="ghost snapshot after the first operand is compiled"),
+                dict(rule="R9g", re=r"(self\.compile_expression\(\w+\)\?;)", nth=1, to=r"\1 let ghost verif_s4 = *self;", why="ghost snapshot after the second operand is compiled"),
+                dict(rule="R9g", re=r"(let jump_if_false_pos = self\.emit\([^;]*;)", to=r"\1 let ghost verif_s2 = *self;", why="ghost snapshot after the conditional jump is emitted"),
+                dict(rule="R9g", re=r"\n(\s*)Ok\(\(\)\)(\s*\}\s*)$", to=r"\n\1proof { lemma_and_shape(old(self), &verif_s1, &verif_s2, &verif_s4, self, left, right, line); }\n\1Ok(())\2", why="proof hint at the accepting exit: the shape of a && b")]),
     m("compile_logical_or", ret="r", requires=PRE, ensures=GEN + ["r is Ok ==> or_shape(old(self), final(self), left, right, line)"], prologue=BCAST, attrs=NODEC, props=["C06", "C01", "C08"],
-      rewrites=[dict(rule="R9", re=r"(self\.compile_expression\(left\)\?;)", to=r"\1 let ghost verif_s1 = *self;", expect=1, strict=True, why="ghost snapshot"),
-                dict(rule="R9", re=r"(let end_pos = self\.emit\(Opcode::Jump, [^;]*;)", to=r"\1 let ghost verif_s3 = *self;", expect=1, strict=True, why="ghost snapshot"),
-                dict(rule="R9", re=r"(self\.patch_jump\(rhs_pos\);)", to=r"\1 let ghost verif_s4 = *self;", expect=1, strict=True, why="ghost snapshot"),
-                dict(rule="R9", re=r"(self\.compile_expression\(right\)\?;)", to=r"\1 let ghost verif_s6 = *self;", expect=1, strict=True, why="ghost snapshot"),
-                dict(rule="R9", re=r"(self\.patch_jump\(end_pos\);)", to=r"\1 proof { lemma_or_shape(old(self), &verif_s1, &verif_s3, &verif_s4, &verif_s6, self, left, right, line); }", expect=1, strict=True, why="proof hint: the shape of a || b")]),
+      rewrites=[dict(rule="R9g", re=r"(self\.compile_expression\(\w+\)\?;)", nth=0, to=r"\1 let ghost verif_s1 = *self;", why="ghost snapshot after the first operand is compiled"),
+                dict(rule="R9g", re=r"(self\.compile_expression\(\w+\)\?;)", nth=1, to=r"\1 let ghost verif_s6 = *self;", why="ghost snapshot after the second operand is compiled"),
+                dict(rule="R9g", re=r"(let end_pos = self\.emit\([^;]*;)", to=r"\1 let ghost verif_s3 = *self;", why="ghost snapshot after both jumps are emitted"),
+                dict(rule="R9g", re=r"(self\.patch_jump\(\w+\);)", nth=0, to=r"\1 let ghost verif_s4 = *self;", why="ghost snapshot after the first patch"),
+                dict(rule="R9g", re=r"\n(\s*)Ok\(\(\)\)(\s*\}\s*)$", to=r"\n\1proof { lemma_or_shape(old(self), &verif_s1, &verif_s3, &verif_s4, &verif_s6, self, left, right, line); }\n\1Ok(())\2", why="proof hint at the accepting exit: the shape of a || b")]),
     m("compile_dot_expression", ret="r", requires=PRE, ensures=GEN, prologue=BCAST, attrs=NODEC),
     m("compile_prop_expression", ret="r", requires=PRE, ensures=GEN + ["r is Ok ==> last_line_is(old(self), final(self), expr.token.line)",
                                                                       "r is Ok ==> sc(final(self)).last_ins.opcode == (if expr.context.access is Get { Opcode::GetProp } else { Opcode::SetProp })"], prologue=BCAST, props=["C13", "C01", "C08"]),
